@@ -77,6 +77,7 @@ type TCP struct {
 	ServeReturned    bool
 	RunningAtReturn  int  // handlers still running when StreamServe returned
 	WrapMetrics      func(conn transport.StreamConn, rec *ConnRec) service.TCPConnMetrics
+	shared           service.StreamListener
 }
 
 // NewTCP builds the handler with the real authenticator and the default (validating) dialer.
@@ -120,6 +121,52 @@ func (w *TCP) Start() {
 		w.ServeReturned = true
 		w.RunningAtReturn = w.Running
 	})
+}
+
+// StartShared is Start with the listener obtained from a service.ListenerManager (the shared
+// listener with its accept goroutine sits between the socket and StreamServe, as in the server).
+func (w *TCP) StartShared() {
+	m := service.NewListenerManager()
+	sl, err := m.ListenStream(ProxyTCP)
+	if err != nil {
+		panic(err)
+	}
+	for _, l := range vnet.W.Listeners() {
+		if !l.IsClosed() && l.Owner == "srv" {
+			w.Ln = l
+		}
+	}
+	w.shared = sl
+	w.serve = vrt.Spawn("serve", func() {
+		service.StreamServe(sl.AcceptStream, func(ctx context.Context, conn transport.StreamConn) {
+			rec := &ConnRec{Remote: conn.RemoteAddr().String()}
+			if tc, ok := conn.(*vnet.TCPConn); ok {
+				rec.Srv = tc
+			}
+			w.Conns = append(w.Conns, rec)
+			w.Running++
+			defer func() {
+				w.Running--
+				rec.HandleReturnedAt = vrt.NowQuiet().Sub(vrt.Epoch)
+			}()
+			var m service.TCPConnMetrics = rec
+			if w.WrapMetrics != nil {
+				m = w.WrapMetrics(conn, rec)
+			}
+			w.H.Handle(ctx, conn, m)
+		})
+		w.ServeReturned = true
+		w.RunningAtReturn = w.Running
+	})
+}
+
+// CloseListener closes the listener StreamServe accepts from.
+func (w *TCP) CloseListener() {
+	if w.shared != nil {
+		w.shared.Close()
+		return
+	}
+	w.Ln.Close()
 }
 
 // Stop closes the listener and waits for StreamServe to return.
